@@ -28,7 +28,8 @@ export RUSTFLAGS="--cfg libp2p_verif ${RUSTFLAGS:-}"
 FEAT=$(awk -v t="$T" '/^\[\[bin\]\]/{n=""} /^name = /{gsub(/"/,"",$3); n=$3} /^required-features/{ if(n==t){gsub(/[\[\]"]/,"",$3); print $3} }' Cargo.toml)
 [ -n "$FEAT" ] || { echo "run_fuzz: target $T is not declared (with required-features) in $HERE/Cargo.toml"; exit 2; }
 LOG=$(mktemp /tmp/fuzz-build-$T-XXXXXX.log)
-if ! cargo +nightly fuzz build --fuzz-dir "$HERE" --features "$FEAT" "$T" >"$LOG" 2>&1; then
+# FUZZ_SKIP_BUILD=1 (manual campaigns only, never set by the registered checks): use the binary as built
+if [ "${FUZZ_SKIP_BUILD:-0}" = 1 ]; then :; elif ! cargo +nightly fuzz build --fuzz-dir "$HERE" --features "$FEAT" "$T" >"$LOG" 2>&1; then
   echo "run_fuzz: BUILD FAILED target=$T (log $LOG)"; tail -30 "$LOG"; exit 2
 fi
 rm -f "$LOG"
